@@ -44,18 +44,23 @@ class C05(Prop):
                   "most B threads nothing published at that moment is anywhere in the chain; is_empty = false implies some slot is "
                   "published. (7) C05_block_order: the slice handed out at 506 is slot 0..len-1 and slot order is claim order (fetch_add "
                   "returns and bumps the write index, which never decreases and bounds every claimed index). (8) C05_spec_ok_sound: Prop-level "
-                  "meaning of spec_ok = true for the clauses without trace positions; C05_spec_no_double_clear_on_model: clause S1 holds on the "
-                  "model's run of every case. The open finding is a theorem "
+                  "meaning of spec_ok = true for the clauses without trace positions. (9) C05_spec_ok_on_model_partial, the checker on the model's "
+                  "own run of every case (trace-indexed ledger, Common/InterleaveTrace): no anomaly and results shaped like the programs (S0), no "
+                  "identity handed to clears twice and no single read handed an identity twice (S1, threads), every slice handed to a thread's "
+                  "callback has its 506 position and every value in it is in the push table with a strictly earlier slot-write position (S2: "
+                  "written-before-read and no fabrication on trace positions). The open finding is a theorem "
                   "(C05_late_claim_refutes) and so are the two repaired defects (the model of the code before each fix violates spec_ok outside "
                   "the late-claim class, the model after the fix does not). Tied to /repo by (i) replaying generated schedules on the real "
                   "AtomicBucket<Val> through yield points at every shared-memory access and comparing step trace, every slice handed to every "
                   "callback, every is_empty result and a final sequential read, with the executable property spec_ok evaluated on the "
                   "implementation's outputs, and (ii) a free-running stress engine on real threads judged by the same property.")
-    level_note = ("NOT proved: C05_spec_ok_on_model in full - that the trace-level checker spec_ok accepts every model run outside the "
-                  "class (only its clause S1 is proved on the model, for every case; not the sequential case either) - and a Prop-level reading "
-                  "of the position-based clauses of spec_ok (written-before-read, snapshot completeness, claim order): those are tied to the "
-                  "configuration-level theorems only by evaluation (spec_ok on every replayed schedule, model agreeing step by step, and the "
-                  "stress oracle). C05_is_empty_sound needs at most B threads for its strong reading; with more, is_empty = true can miss "
+    level_note = ("NOT proved: C05_spec_ok_on_model in full. Of the trace-level checker spec_ok, proved on the model's run of every case are S0, S1 "
+                  "and S2 for the threads (C05_spec_ok_on_model_partial). Missing: S1/S2/S4 for the FINAL sequential read (final_data runs a fresh "
+                  "thread on the final shared state; not analysed), S4 (claim positions increase along a slice), S3 (snapshot / is_empty "
+                  "completeness on positions) and S5 (pushes = cleared + final, outside the late-claim class): the configuration-level theorems "
+                  "exist (C05_block_order, C05_snapshot_sees_completed, C05_is_empty_sound, C05_conservation_except_late_claim) but are not yet "
+                  "connected to the checker's position tables; those clauses are tied to the theorems only by evaluation (spec_ok on every "
+                  "replayed schedule, model agreeing step by step, and the stress oracle). C05_is_empty_sound needs at most B threads for its strong reading; with more, is_empty = true can miss "
                   "completed pushes deeper than the head's successor (stated in the theorem). "
                   "The conservation theorem speaks about "
                   "configurations (slots, ownership, per-thread delivered lists); its reading as 'completed = delivered (+) resident' uses "
